@@ -1018,14 +1018,159 @@ theorem afterSchemeNS_opaque (idna : Idna) (scheme : Bytes) (frag : Option Bytes
   · exact absurd rfl h
   · rfl
 
-/-- **`parse_url_impl<ada::url>(input, nullptr)` from SCHEME_START on = the Standard's basic URL parser**, for the inputs
-    without a scheme and those with any scheme other than `file` -/
+/-! ### file URLs -/
+theorem ty_file : getSchemeType bFile = 6 := by decide +kernel
+theorem sp_file : isSpecialScheme bFile = true := by decide
+
+theorem filePath_spec (r : Bytes) (q frag : Option Bytes) (hr : (0x3F : UInt8) ∉ r) :
+    filePath frag (r ++ qs q) =
+      .ok (UR.recOf (addQF q frag { scheme := bFile, host := some .empty, path := pathState bFile [] r })) := by
+  unfold filePath
+  rw [pathQ_spec true bFile 6 ⟨by decide, by decide⟩ r q hr]
+  cases q <;> cases frag <;>
+    simp [addQF, UR.recOf, Url.isSpecial, sp_file, Url.pathSerialized, FP.pathText, Host.serialize, encodeQuery]
+
+/-- a text without '/', '\\', '?', '#': the starts-with test of the C++ is the Standard's exact test -/
+theorem driveLetter_eq (B : Bytes) (hB : ∀ b ∈ B, b ≠ 0x2F ∧ b ≠ 0x5C ∧ b ≠ 0x3F ∧ b ≠ 0x23) :
+    PathPrepared.isWindowsDriveLetter B = Spec.isWindowsDriveLetter B := by
+  unfold PathPrepared.isWindowsDriveLetter Spec.isWindowsDriveLetter
+  match B, hB with
+  | [], _ => rfl
+  | [_], _ => rfl
+  | [a, b], _ => simp [PP.isAlpha_model_eq]
+  | a :: b :: c :: rest, hB =>
+    have hc := hB c (by simp)
+    simp [hc.1, hc.2.1, hc.2.2.1, hc.2.2.2]
+
+theorem takeWhile_congr (p1 p2 : UInt8 → Bool) (l : Bytes) (h : ∀ b ∈ l, p1 b = p2 b) : l.takeWhile p1 = l.takeWhile p2 := by
+  induction l with
+  | nil => rfl
+  | cons x t ih =>
+    have hx := h x (by simp)
+    simp only [List.takeWhile_cons, hx]
+    rw [ih (fun b hb => h b (List.mem_cons_of_mem _ hb))]
+
+/-- FILE_HOST … QUERY = the Standard's file host state -/
+theorem fileHost_spec (idna : Idna) (text : Bytes) (q frag : Option Bytes) (hid : ∀ d, HP.IdnaAt idna d)
+    (hnoq : (0x3F : UInt8) ∉ text) (hnoh : (0x23 : UInt8) ∉ text) :
+    ParseSpecial.fileHost idna frag (text ++ qs q) = outOf ((Spec.fileHost idna text).map (addQF q frag)) := by
+  unfold ParseSpecial.fileHost Spec.fileHost authorityEnd
+  have hbuf : (text ++ qs q).takeWhile (fun c => !(c == 0x2F || c == 0x5C || c == 0x3F)) =
+      text.takeWhile (fun b => !(b == 0x2F || (true && b == 0x5C))) := by
+    rw [HS.takeWhile_prefix_stop _ text (qs q) (qs_stop _ (by decide) q)]
+    apply takeWhile_congr
+    intro b hb
+    have : (b == 0x3F) = false := by
+      have : b ≠ 0x3F := fun e => hnoq (e ▸ hb)
+      simpa using this
+    simp [this]
+  rw [hbuf]
+  obtain ⟨T', htext, hT'⟩ := HS.takeWhile_split (fun b => !(b == 0x2F || (true && b == 0x5C))) text
+  generalize hB : text.takeWhile (fun b => !(b == 0x2F || (true && b == 0x5C))) = B at htext
+  have hBb : ∀ b ∈ B, b ≠ 0x2F ∧ b ≠ 0x5C ∧ b ≠ 0x3F ∧ b ≠ 0x23 := by
+    intro b hb
+    have h1 := HP.takeWhile_all _ text b (by rw [hB]; exact hb)
+    have hm : b ∈ text := by rw [htext]; simp [hb]
+    have h2 : b ≠ 0x3F := fun e => hnoq (e ▸ hm)
+    have h3 : b ≠ 0x23 := fun e => hnoh (e ▸ hm)
+    simp at h1
+    exact ⟨h1.1, h1.2, h2, h3⟩
+  have htk : text.take B.length = B := by rw [htext]; simp
+  have hdr : text.drop B.length = T' := by rw [htext]; simp
+  have hdr2 : (text ++ qs q).drop B.length = T' ++ qs q := by rw [htext]; simp
+  have hnoT : (0x3F : UInt8) ∉ T' := fun h => hnoq (by rw [htext]; simp [h])
+  simp only [htk, hdr, hdr2, driveLetter_eq B hBb]
+  by_cases hdl : Spec.isWindowsDriveLetter B = true
+  · simp only [hdl, ↓reduceIte, Option.map_some, outOf]
+    exact filePath_spec text q frag hnoq
+  · simp only [hdl, Bool.false_eq_true, ↓reduceIte]
+    by_cases hemp : B.isEmpty = true
+    · simp only [hemp, ↓reduceIte, Option.map_some, outOf]
+      have hBn : B = [] := by simpa using hemp
+      have hT'eq : T' = text := by rw [htext, hBn]; rfl
+      have := finish_spec true bFile sp_file none text q frag hnoq .empty none
+      rw [ty_file] at this
+      simp only [credOf, Host.serialize] at this
+      rw [this, specUrl_addQF, hT'eq]
+      simp [credUser, credPass]
+    · have hne : B ≠ [] := by simpa using hemp
+      simp only [hemp, Bool.false_eq_true, ↓reduceIte]
+      rw [HP.parseHost_eq idna true B hne (hid _)]
+      simp only [Bool.not_true]
+      cases hh : hostParse idna B false with
+      | none => simp [outOf]
+      | some h =>
+        simp only [Option.map_some, HP.viewH, outOf]
+        rw [HS.serialize_localhost idna B h hh]
+        by_cases hl : h = .domain bLocalhost
+        · have hl' : (h == Host.domain bLocalhost) = true := by simpa using hl
+          simp only [hl', ↓reduceIte]
+          have := finish_spec true bFile sp_file none T' q frag hnoT .empty none
+          rw [ty_file] at this
+          simp only [credOf, Host.serialize] at this
+          rw [this, specUrl_addQF]
+          simp [credUser, credPass]
+        · have hl' : (h == Host.domain bLocalhost) = false := by simpa using hl
+          simp only [hl', Bool.false_eq_true, ↓reduceIte]
+          have := finish_spec true bFile sp_file none T' q frag hnoT h none
+          rw [ty_file] at this
+          simp only [credOf] at this
+          rw [this, specUrl_addQF]
+          simp [credUser, credPass]
+
+/-- FILE and FILE_SLASH without a base = the Standard's file and file slash states -/
+theorem afterSchemeFile_spec (idna : Idna) (restp tail : Bytes) (q frag : Option Bytes) (hid : ∀ d, HP.IdnaAt idna d)
+    (hnoq : (0x3F : UInt8) ∉ restp) (hnoh : (0x23 : UInt8) ∉ restp) (hQ hF : Bool) :
+    afterSchemeFile idna frag (restp ++ qs q) = outOf ((fileState idna none restp tail hQ hF).map (addQF q frag)) := by
+  unfold afterSchemeFile fileState fileState.fileElse
+  cases restp with
+  | nil =>
+    have := filePath_spec [] q frag (by simp)
+    simp only [List.nil_append] at this ⊢
+    cases q with
+    | none => simpa [qs, baseIsFile, outOf] using this
+    | some q' =>
+      simp only [qs] at this ⊢
+      have hq : ((0x3F : UInt8) == 0x2F || (0x3F : UInt8) == 0x5C) = false := by decide
+      simp only [hq, Bool.false_eq_true, ↓reduceIte, baseIsFile, Option.map_some, outOf]
+      exact this
+  | cons c r1 =>
+    simp only [List.cons_append]
+    by_cases hc : (c == 0x2F || c == 0x5C) = true
+    · simp only [hc, ↓reduceIte]
+      have hno1 : (0x3F : UInt8) ∉ r1 := fun h => hnoq (List.mem_cons_of_mem _ h)
+      have hnh1 : (0x23 : UInt8) ∉ r1 := fun h => hnoh (List.mem_cons_of_mem _ h)
+      unfold fileSlash fileSlash.fileSlashElse
+      cases r1 with
+      | nil =>
+        have := filePath_spec [] q frag (by simp)
+        simp only [List.nil_append] at this ⊢
+        cases q with
+        | none => simpa [qs, baseIsFile, outOf] using this
+        | some q' =>
+          simp only [qs] at this ⊢
+          have hq : ((0x3F : UInt8) == 0x2F || (0x3F : UInt8) == 0x5C) = false := by decide
+          simp only [hq, Bool.false_eq_true, ↓reduceIte, baseIsFile, Option.map_some, outOf]
+          exact this
+      | cons c2 r2 =>
+        simp only [List.cons_append]
+        by_cases hc2 : (c2 == 0x2F || c2 == 0x5C) = true
+        · simp only [hc2, ↓reduceIte]
+          exact fileHost_spec idna r2 q frag hid (fun h => hno1 (List.mem_cons_of_mem _ h)) (fun h => hnh1 (List.mem_cons_of_mem _ h))
+        · simp only [hc2, Bool.false_eq_true, ↓reduceIte, baseIsFile, Option.map_some, outOf]
+          have := filePath_spec (c2 :: r2) q frag hno1
+          simpa using this
+    · simp only [hc, Bool.false_eq_true, ↓reduceIte, baseIsFile, Option.map_some, outOf]
+      have := filePath_spec (c :: r1) q frag hnoq
+      simpa using this
+
+/-- **`parse_url_impl<ada::url>(input, nullptr)` from SCHEME_START on = the Standard's basic URL parser**, for every
+    input -/
 theorem machine_spec (idna : Idna) (input : Bytes) (hid : ∀ d, HP.IdnaAt idna d)
     (hclean : HS.bracketClean (schemeSpecial input) false (hostStart input) = true) :
-    machine idna input = if inScope input then outOf (parse idna input none) else .other := by
+    machine idna input = outOf (parse idna input none) := by
   unfold machine
   unfold hostStart schemeSpecial at hclean
-  unfold inScope schemeOf
   rw [prep_eq] at hclean ⊢
   have hsj := cut_join 0x23 (preprocess input)
   rcases hcf : cutAt 0x23 (preprocess input) with ⟨d, frag⟩
@@ -1063,12 +1208,24 @@ theorem machine_spec (idna : Idna) (input : Bytes) (hid : ∀ d, HP.IdnaAt idna 
       simp only [parseSchemeNoOverride_spec, hname] at hclean ⊢
       have hf := Proto.type_facts scheme
       have hnoq' : (0x3F : UInt8) ∉ restp := fun h => hnoq (takeScheme_rest_sub pre scheme restp htp _ h)
-      have hbf : (scheme != bFile) = !(getSchemeType scheme == 6) := by rw [hf.2.1]; rfl
-      simp only [Option.map_some, hbf]
-      by_cases h6 : (getSchemeType scheme == 6) = true
-      · simp [h6]
-      simp only [h6, Bool.false_eq_true, ↓reduceIte, Bool.not_false]
       rw [hrest] at hclean ⊢
+      by_cases h6 : (getSchemeType scheme == 6) = true
+      · -- file
+        have hfile : scheme = bFile := by
+          have : (scheme == bFile) = true := by rw [← hf.2.1]; exact h6
+          simpa using this
+        subst hfile
+        have hnoh : (0x23 : UInt8) ∉ restp := by
+          intro h
+          apply hsj.2
+          rw [hd]
+          exact List.mem_append_left _ (takeScheme_rest_sub pre bFile restp htp _ h)
+        simp only [h6, ↓reduceIte]
+        rw [afterSchemeFile_spec idna restp ((preprocess input).drop (pre.length - restp.length)) query frag hid hnoq' hnoh
+          query.isSome frag.isSome]
+        unfold parseCore
+        simp only [htp, beq_self_eq_true, ↓reduceIte]
+      simp only [h6, Bool.false_eq_true, ↓reduceIte] at hclean ⊢
       have hnf : (scheme == bFile) = false := by rw [← hf.2.1]; simpa using h6
       by_cases h1' : (getSchemeType scheme == 1) = true
       · -- not special
@@ -1173,16 +1330,11 @@ theorem machine_spec (idna : Idna) (input : Bytes) (hid : ∀ d, HP.IdnaAt idna 
         unfold parseCore
         simp only [htp, hnf, Bool.false_eq_true, ↓reduceIte, hsp]
 
-theorem outOf_ne_other (o : Option Url) : outOf o ≠ .other := by
-  cases o <;> simp [outOf]
-
-/-- **`parse_url_impl<ada::url>(input, nullptr)` = the Standard's basic URL parser** on the inputs in scope (fast path
-    included) -/
+/-- **`parse_url_impl<ada::url>(input, nullptr)` = the Standard's basic URL parser** (fast path included) -/
 theorem parseNoBase_spec (idna : Idna) (input : Bytes) (hid : ∀ d, HP.IdnaAt idna d)
-    (hclean : HS.bracketClean (schemeSpecial input) false (hostStart input) = true) (hin : inScope input = true) :
+    (hclean : HS.bracketClean (schemeSpecial input) false (hostStart input) = true) :
     parseNoBase idna input = outOf (parse idna input none) := by
   have hm := machine_spec idna input hid hclean
-  simp only [hin, ↓reduceIte] at hm
   unfold parseNoBase
   split
   · exact hm
@@ -1191,22 +1343,6 @@ theorem parseNoBase_spec (idna : Idna) (input : Bytes) (hid : ∀ d, HP.IdnaAt i
     | some r =>
       obtain ⟨u, hu, hr⟩ := SA.trySimple_sound idna input r hts
       simp [hu, outOf, hr]
-
-/-- … and it leaves the scope (`Out.other`) only for inputs that are not in scope -/
-theorem parseNoBase_other (idna : Idna) (input : Bytes) (hid : ∀ d, HP.IdnaAt idna d)
-    (hclean : HS.bracketClean (schemeSpecial input) false (hostStart input) = true) (ho : parseNoBase idna input = .other) :
-    inScope input = false := by
-  have hm := machine_spec idna input hid hclean
-  cases hin : inScope input with
-  | false => rfl
-  | true =>
-    simp only [hin, ↓reduceIte] at hm
-    unfold parseNoBase at ho
-    split at ho
-    · rw [hm] at ho; exact absurd ho (outOf_ne_other _)
-    · cases hts : SimpleAbs.trySimple input with
-      | none => rw [hts] at ho; simp only at ho; rw [hm] at ho; exact absurd ho (outOf_ne_other _)
-      | some r => rw [hts] at ho; cases ho
 
 /-! ### a plain sufficient condition for the bracket side condition -/
 theorem clean_no_bracket (sp : Bool) : ∀ l : Bytes, (0x5B : UInt8) ∉ l → HS.bracketClean sp false l = true := by
@@ -1297,6 +1433,9 @@ theorem clean_of_no_bracket (input : Bytes) (h : (0x5B : UInt8) ∉ input) :
     obtain ⟨n, r⟩ := nr
     rw [hss] at hm
     simp only at hm
+    by_cases h6 : ((parseSchemeNoOverride n).1 == 6) = true
+    · simp [h6] at hm
+    simp only [h6, Bool.false_eq_true, ↓reduceIte] at hm
     generalize ((parseSchemeNoOverride n).1 != 1) = sp at hm
     cases hat : authText sp r with
     | none => rw [hat] at hm; cases hm
